@@ -142,7 +142,7 @@ class Scenario:
     def transfers_obs(self):
         return [(t.username, t.remote_path, t.state.VALUE.name, t.abort_reason, t.fail_reason) for t in self.tm.transfers if t.is_upload()]
 
-    def force(self, idx, state, abort_reason):
+    def force(self, idx, state, abort_reason, live=False):
         from aioslsk.transfer.state import TransferState
         ups = [t for t in self.tm.transfers if t.is_upload()]
         if idx < len(ups):
@@ -150,6 +150,11 @@ class Scenario:
             t.state = TransferState.init_from_state(TransferState.State[state], t)
             t.abort_reason = abort_reason
             t.fail_reason = None
+            if live:
+                # the upload has a running task (waiting for the peer), so that aborting it really suspends
+                async def waiting():
+                    await self.w.loop.create_future()
+                t._transfer_task = self.w.loop.create_task(waiting())
         return {'transfers': self.transfers_obs()}
 
     def resolve(self, spec):
@@ -204,7 +209,7 @@ class Scenario:
         for d in self.sm.shared_directories:
             for it in d.items:
                 if it.get_remote_path() == rp:
-                    return (d.share_mode.value, list(d.users), os.path.exists(it.get_absolute_path()), it.shared_directory is not d)
+                    return (d.share_mode.value, list(d.users), os.path.exists(it.get_absolute_path()), it.shared_directory is not d, self.rel(d.absolute_path))
         return None
 
     def search(self, user, query):
@@ -238,7 +243,7 @@ class Scenario:
             for it in d.items:
                 if self.rel(os.path.dirname(it.get_absolute_path())) == list(abs_dir_comps):
                     rd = it.get_remote_directory_path()
-                    mode = (d.share_mode.value, list(d.users))
+                    mode = (d.share_mode.value, list(d.users), self.rel(d.absolute_path))
         it = d = None
         if rd is None:
             return {'skipped': True}
@@ -260,7 +265,7 @@ class Scenario:
         holders = {}
         for d in self.sm.shared_directories:
             for it in d.items:
-                holders[(it.get_remote_directory_path(), it.filename)] = (d.share_mode.value, list(d.users))
+                holders[(it.get_remote_directory_path(), it.filename)] = (d.share_mode.value, list(d.users), self.rel(d.absolute_path))
         it = d = None
         out = {'replied': False, 'visible': [], 'locked': [], 'holders': holders}
         for m in conn.sent:
@@ -293,7 +298,12 @@ def run_scenario(scn):
             elif k == 'cfg':
                 out.append(sc.set_cfg(e[1]))
             elif k == 'set':
-                out.append(sc.force(e[1], e[2], e[3]))
+                out.append(sc.force(e[1], e[2], e[3], live=len(e) > 4 and e[4] == 'live'))
+            elif k == 'remove_async':
+                ups = [t for t in sc.tm.transfers if t.is_upload()]
+                if e[1] < len(ups):
+                    sc.w.loop.create_task(sc.tm.remove(ups[e[1]]))     # the application removes a transfer; runs interleaved with what follows
+                out.append({'removed': e[1] < len(ups)})
             elif k in ('queue', 'request'):
                 out.append(sc.peer_request(k, e[1], e[2]))
             elif k == 'search':
@@ -320,7 +330,7 @@ def run_scenario(scn):
 # monitor: the property text
 # ----------------------------------------------------------------------------------------------
 
-def dir_allows(mode, users, friends, user):
+def _dir_allows(mode, users, friends, user):
     if mode == 'friends':
         return user in friends
     if mode == 'users':
@@ -333,11 +343,27 @@ def monitor(scn, obs):
     cfg = {'friends': [], 'blocked': {}, 'phrases': [], 'max': 100}
     last_holder = {}
 
+    intent = {}          # shared directory -> (mode, users) as the scenario configured it (NOT read back from the implementation)
+
     def blocked(user, what):
         f = cfg['blocked'].get(user)
         return f in ('ALL', what)
+
+    def dir_allows(mode, users, friends, user, path=None):
+        if path is not None and tuple(path) in intent:
+            mode, users = intent[tuple(path)]
+        return _dir_allows(mode, users, friends, user)
     for e, ob in zip(scn['events'], obs):
         k = e[0]
+        if k in ('share', 'share_nc') and not ob.get('err'):
+            st = e[1]
+            if st[0] == 'add':
+                intent[tuple(st[1])] = (st[2], list(st[3]))
+            elif st[0] == 'remove':
+                intent.pop(tuple(st[1]), None)
+            elif st[0] == 'update' and tuple(st[1]) in intent:
+                m0, u0 = intent[tuple(st[1])]
+                intent[tuple(st[1])] = (st[2] or m0, list(st[3]) if st[3] is not None else u0)
         if k == 'cfg':
             cfg = e[1]
         elif k == 'search':
@@ -360,13 +386,13 @@ def monitor(scn, obs):
                                   f'search reply for {user} contains {fn!r}, which no shared directory holds', {'event': e, 'result': fn}))
             for ap, fn in rep['visible']:
                 h = ob['holders'].get(fn)
-                if h and not dir_allows(h[1], h[2], cfg['friends'], user):
+                if h and not dir_allows(h[1], h[2], cfg['friends'], user, h[3]):
                     found.append((K_F05 if h[4] else 'locked-file-listed-as-normal-result',
                                   f'file held by a {h[1]}-only directory is listed as a normal result for {user}',
                                   {'event': e, 'file': h[0], 'holder': h[3]}))
             for ap, fn in rep['locked']:
                 h = ob['holders'].get(fn)
-                if h and dir_allows(h[1], h[2], cfg['friends'], user):
+                if h and dir_allows(h[1], h[2], cfg['friends'], user, h[3]):
                     found.append((K_F05 if h[4] else 'permitted-file-reported-locked',
                                   f'file held by a directory that {user} may use is reported as locked',
                                   {'event': e, 'file': h[0], 'holder': h[3]}))
@@ -375,7 +401,7 @@ def monitor(scn, obs):
             before = last_holder.get('transfers', [])
             created = len(ob['transfers']) > len(before)
             h = ob['holder']
-            permitted = (not blocked(user, 'UPLOADS')) and h is not None and dir_allows(h[0], h[1], cfg['friends'], user)
+            permitted = (not blocked(user, 'UPLOADS')) and h is not None and dir_allows(h[0], h[1], cfg['friends'], user, h[4])
             if created and not permitted:
                 key = K_F05 if h is not None and h[3] and not blocked(user, 'UPLOADS') else 'upload-created-for-unentitled'
                 found.append((key, f'an upload was created for {user} who is not entitled to {ob["rp"]!r}', {'event': e, 'holder': h}))
@@ -402,7 +428,7 @@ def monitor(scn, obs):
             for part, want in (('visible', True), ('locked', False)):
                 for key in ob[part]:
                     h = ob['holders'].get(tuple(key))
-                    if h is not None and dir_allows(h[0], h[1], cfg['friends'], user) != want:
+                    if h is not None and dir_allows(h[0], h[1], cfg['friends'], user, h[2]) != want:
                         found.append(('shares-reply-wrong-part', f'shares reply for {user} lists {key[1]!r} of a {h[0]} directory as {part}',
                                       {'event': e, 'file': list(key)}))
         elif k == 'dircontents':
@@ -410,7 +436,7 @@ def monitor(scn, obs):
                 continue
             user = e[1]
             m = ob['mode']
-            if ob['files'] and not dir_allows(m[0], m[1], cfg['friends'], user) and not blocked(user, 'SHARES'):
+            if ob['files'] and not dir_allows(m[0], m[1], cfg['friends'], user, m[2]) and not blocked(user, 'SHARES'):
                 found.append((K_F28, f'PeerDirectoryContentsReply lists the files of a {m[0]}-only directory to {user}', {'event': e, 'files': ob['files'][:3]}))
         elif k in ('cycle', 'cycle_nr'):
             before = last_holder.get('transfers', [])
@@ -421,7 +447,7 @@ def monitor(scn, obs):
             for (u, rp, st, ar, fr), h in zip(ob['transfers'], ob.get('holders', [])):
                 if st in ('COMPLETE', 'FAILED', 'VIRGIN', 'ABORTED'):
                     continue
-                if h is None or not dir_allows(h[0], h[1], cfg['friends'], u):
+                if h is None or not dir_allows(h[0], h[1], cfg['friends'], u, h[4]):
                     found.append((K_F05 if h is not None and h[3] else 'cycle-unentitled-not-aborted',
                                   f'after the cycle the upload of {rp!r} to {u} is {st} although {u} is not entitled to it',
                                   {'transfer': [u, rp, st, ar], 'holder': h}))
@@ -433,6 +459,9 @@ def monitor(scn, obs):
                 if blocked(u, 'UPLOADS'):
                     if not (st == 'ABORTED' and ar in ('Blocked', 'Requested')):
                         found.append(('cycle-blocked-not-aborted', f'after the cycle the upload of blocked user {u} is {st}/{ar}', {'transfer': [u, rp, st, ar]}))
+        if k == 'remove_async' and ob['removed']:
+            prev = last_holder.get('transfers', [])
+            last_holder['transfers'] = prev[:e[1]] + prev[e[1] + 1:]
         if 'transfers' in ob:
             last_holder['transfers'] = ob['transfers']
     return found
@@ -522,6 +551,26 @@ def gen_scenario(rng):
                 events.append(['queue', u, ['item', f, 'exact']])
             ntr = 1
             tusers.add(u)
+    if not ntr and rng.random() < 0.25:
+        # directed: the shares-changed cycle must abort an upload that has a running task (the abort suspends) and another one
+        # behind it in the list, while the application removes an earlier transfer from the list
+        f = rng.choice(fl)
+        d = next((x for x in sorted(shared, key=len, reverse=True) if f[:len(x)] == x and len(f) > len(x)), None)
+        if d is not None:
+            events.append(['cfg', {'friends': [], 'blocked': {}, 'phrases': [], 'max': 100}])
+            events.append(['share', ['update', d, 'everyone', []]])
+            us = rng.sample(USERS, 3)
+            for u in us:
+                events.append(['queue', u, ['item', f, 'exact']])
+            events.append(['set', 0, rng.choice(['COMPLETE', 'FAILED']), None])
+            events.append(['set', 1, rng.choice(['INITIALIZING', 'UPLOADING']), None, 'live'])
+            events.append(['cycle'])
+            events.append(['share_nc', ['update', d, 'users', []]])
+            events.append(['spin', rng.randrange(1, 6)])
+            events.append(['remove_async', 0])
+            events.append(['cycle_nr'])
+            ntr = 2
+            tusers.update(us)
     if deep and not ntr and rng.random() < 0.35:
         # directed: a nested directory with other rules is added (or the parent removed) without a rescan
         f = rng.choice(deep)
@@ -594,11 +643,20 @@ def gen_scenario(rng):
             base = gen_cfg(rng, vocab)
             base['blocked'] = {}
             base['phrases'] = []
-            events.append(['share', ['update', d, 'friends', []]])
-            events.append(['cfg', dict(base, friends=sorted(set(base['friends']) | {u}))])
+            by_users = rng.random() < 0.5
+            if by_users:
+                # ... or is named in a users-only directory and the list is then shrunk (to nobody, or to somebody else)
+                events.append(['cfg', base])
+                events.append(['share', ['update', d, 'users', [u]]])
+            else:
+                events.append(['share', ['update', d, 'friends', []]])
+                events.append(['cfg', dict(base, friends=sorted(set(base['friends']) | {u}))])
             events.append(['search', u, S.gen_query(rng, [], f)])
             events.append(['queue', u, ['item', f, 'exact']])
-            events.append(['cfg', dict(base, friends=sorted(set(base['friends']) - {u}))])
+            if by_users:
+                events.append(['share', ['update', d, rng.choice(['users', None]), rng.choice([[], [], [x for x in USERS if x != u][:1]])]])
+            else:
+                events.append(['cfg', dict(base, friends=sorted(set(base['friends']) - {u}))])
             events.append(['cycle'])
             events.append(['search', u, S.gen_query(rng, [], f)])
             events.append([rng.choice(['queue', 'request']), u, ['item', rng.choice(fl), 'exact']])
@@ -690,6 +748,9 @@ def coq_scenario(nm, scn, obs, name):
                     return '[' + ';'.join(f'({nm.p(ap)},{nm.s(fn)})' for ap, fn in l) + ']'
                 ex = f'(Some ({conv(rep["visible"])},{conv(rep["locked"])}))'
             rows.append(f'ESearch {nm.s(e[1])} {nm.s(e[2])} {ex}')
+        elif k == 'remove_async':
+            if ob['removed']:
+                rows.append(f'ERemove {e[1]}%nat')
         elif k == 'sharesreq':
             if not ob['replied']:
                 continue
@@ -725,7 +786,7 @@ def coq_file(cases):
 def coq_positions(scn, obs):
     pos = []
     for i, (e, ob) in enumerate(zip(scn['events'], obs)):
-        if e[0] == 'spin' or (e[0] == 'dircontents' and (ob.get('skipped') or not ob.get('replied'))) or (e[0] == 'sharesreq' and not ob['replied']) \
+        if e[0] == 'spin' or (e[0] == 'remove_async' and not ob['removed']) or (e[0] == 'dircontents' and (ob.get('skipped') or not ob.get('replied'))) or (e[0] == 'sharesreq' and not ob['replied']) \
                 or (e[0] in ('share', 'share_nc') and e[1][0] == 'scan' and 'disk' not in ob):
             continue
         pos.append(i)
